@@ -299,11 +299,21 @@ func vC12_timeStep() {
 	vCover("end")
 }
 
+// short histories from a freshly started actor: the first two events are chosen by case split, the rest by the solver
 func vC12_timeHistory(K int) {
 	pid, m, es := vC12_timeSetup()
 	for k := 0; k < K; k++ {
 		if vC12_stops == 0 { // a passivated actor is dead: the history ends there
-			vC12_event(pid, m, vChoose("event", 6))
+			ev := 0
+			switch k {
+			case 0:
+				ev = vCase("e1")
+			case 1:
+				ev = vCase("e2")
+			default:
+				ev = vChoose("event", 6)
+			}
+			vC12_event(pid, m, ev)
 		}
 	}
 	vC12_after(pid, m, es)
@@ -343,11 +353,8 @@ func vC12_countInv(pid *PID, m *passivationManager) bool {
 	if !(vC12_postStart >= 0 && vC12_postStart <= 1 && vC12_postStart <= vC12_sinceReg) || len(m.queue) != 0 {
 		return false
 	}
-	e, ok := m.entries[pid.ID()]
-	if !ok {
-		return len(m.entries) == 0 && len(m.messageTriggers) == 0
-	}
-	if len(m.entries) != 1 || e.target != passivationParticipant(pid) || e.id != pid.ID() || e.maxMessages != vC12_N || e.index != -1 {
+	e, ok := m.entries[pid.ID()] // a live actor stays registered
+	if !ok || len(m.entries) != 1 || e.target != passivationParticipant(pid) || e.id != pid.ID() || e.maxMessages != vC12_N || e.index != -1 {
 		return false
 	}
 	if _, isCount := e.strategy.(*passivation.MessagesCountBasedStrategy); !isCount {
@@ -396,15 +403,9 @@ func vC12_countStep() {
 	pid.processedCount.Store(C)
 	e.baseline = vNondetInt64("baseline")
 	e.paused, e.pending, e.enqueued = vNondetBool("entryPaused"), vNondetBool("pending"), vNondetBool("enqueued")
-	switch vCase("entry") {
-	case 0:
-		delete(m.entries, pid.ID())
-		vCover("pre-unregistered")
-	case 1:
+	if vCase("entry") == 1 {
 		m.messageTriggers <- e
 		vCover("pre-trigger-queued")
-	default:
-		vCover("pre-registered")
 	}
 	vC12_known = true
 	vAssume(vC12_countInv(pid, m))
@@ -450,7 +451,10 @@ func vC12_countReregister() {
 	vC12_sinceReg, vC12_postStart = 0, 0
 	pid.resumePassivation()
 	vC12_drain(m)
-	vC12_after(pid, m, es)
+	if vC12_stops > 0 {
+		vCover("passivated-by-stale-trigger")
+	}
+	vAssert(es.passivated == vC12_stops, "one ActorPassivated event per passivation")
 	vCover("end")
 }
 
